@@ -71,6 +71,14 @@ CHECKS = {
             "Divergence = violation.",
             "two element types, two groups, member sets GroupsDef!Sel, depth 3 (4 thorough)",
             "TLC-generated operation histories replayed; abstract-set equality decided by TLC at every step", "§4 C27"),
+    "C24": ("model_checking",
+            "Create.tla enumerates every configuration (17 create pairs x subsets of explicitly passed optional parameter groups "
+            "x standard-type shapes x error conditions); both routes (two single calls / one batch call) are executed with a "
+            "distinct sentinel value per parameter source, and TLC decides row equality, 'batch rejects iff a single call "
+            "rejects', the spec's required rejection and 'no partial creation' on the recorded rows.",
+            "optional groups per Create.tla!Opt; missing values (None/NaN/''/absent column) are one token; name and geodata "
+            "columns excluded",
+            "TLC-enumerated creation configurations executed on both routes; provenance rows compared by TLC", "§4 C24"),
 }
 
 NOT_APPLICABLE = {
